@@ -217,7 +217,7 @@ def r61(ctx, api):
                        'state dict' if attr in (slice_keys if route == 'slice' else pickle_keys) else
                        '_set_attrs' if attr in built else 'class default' if attr in defaults else 'NOTHING'),
                    api.loc(need[attr][0][1]))
-    extra = slice_keys - pickle_keys
+    extra = slice_keys - pickle_keys - built      # (an entry that _set_attrs rebuilds at once is neither here nor there)
     ctx.ob('R6.1', 'api.ParquetFile:state-dicts-agree-modulo-class-defaults', extra <= defaults and pickle_keys <= slice_keys,
            'slice state has %s beyond the pickle state; each must have a class-level default' % sorted(extra), api.loc(gs))
 
@@ -313,9 +313,13 @@ def r63(ctx, api):
                 if base.endswith('fmd') or base in ('fmd', 'self.fmd'):
                     bad.append('%s.%s: %s' % (k[0], k[1], norm(a)))
     ctx.floor('R6.3', 'num_rows loads on read paths', n, 8)
-    ctx.ob('R6.3', 'read-API:footer-num_rows-never-consulted', not bad,
-           'loads of the footer-level num_rows on read paths: %s (a sliced handle keeps the parent\'s value; only '
-           'rg.num_rows of the selected row groups is authoritative)' % (bad or 'none'), 'fastparquet/api.py:1')
+    # the footer total is as good as the sum over the row groups exactly when every handle derivation recounts it
+    gi = api.func('ParquetFile.__getitem__')
+    recount = any(isinstance(s_, ast.Assign) and norm(s_.targets[0]).endswith('fmd.num_rows') and 'num_rows for' in norm(s_.value)
+                  and 'new_rgs' in norm(s_.value) for s_ in walk_no_nested(gi))
+    ctx.ob('R6.3', 'read-API:footer-num_rows-consulted-only-if-selections-recount-it', not bad or recount,
+           'loads of the footer-level num_rows on read paths: %s while __getitem__ does not recount it for the selection (a '
+           'sliced handle would answer with the parent\'s total)' % (bad or 'none'), 'fastparquet/api.py:1')
 
 
 LISTY_PARAMS = {'columns', 'filters', 'index', 'categories', 'rgs'}
